@@ -90,6 +90,11 @@ def tasks(tier):
         cfg = dict(M=2, alphabet=["ok", "x:T"], suspend=True, inject_start=True, max_unknown=None,
                    breaker={"threshold": 1, "window": 8, "recovery": 2, "trip_on": ["T", "U", "P"]})
         out.append({"family": "records-never-started", "cfg": cfg, "entry": e, "bound": 1, "ncalls": 2})
+    # the classifier is a callable rule table whose len() is 0 (a falsy object)
+    for e, thr in itertools.product(WITH_RETRY, [1, 3]):
+        cfg = dict(M=2, alphabet=["ok", "x:T", "xsc:T", "xsc:S", "r:T", "x:P"], max_unknown=None, classifier_kind="falsy",
+                   breaker={"threshold": thr, "window": 8, "recovery": 2, "trip_on": ["T", "S", "P"]})
+        out.append({"family": "records-falsy-classifier", "cfg": cfg, "entry": e, "bound": 0, "ncalls": 2})
     # the final failure is a rejected None result
     for e, thr in itertools.product(WITH_RETRY, [1, 3]):
         cfg = dict(M=2, alphabet=["ok", "rn:T", "rn:P", "x:U", "r:T"], force_rc=True, max_unknown=None,
